@@ -184,55 +184,92 @@ def run(ctx):
 def clip_rules(ctx, d2, vle):
     prog = ctx.prog
     f = vle.methods['_solve_v']
-    # fixed-point branch: both clips dominate the return
-    cfg = CFG(f.node)
-    branch = None
-    for n in walk_no_nested(f.node):
-        if isinstance(n, ast.If) and "'fixed-point'" in src(n.test):
-            branch = n
-    if branch is None:
-        raise AnalysisError('VLE._solve_v: fixed-point branch not found')
-    body = branch.body
-    solve = [s for s in body if isinstance(s, ast.Assign) and '_solve_v_fixed_point' in src(s.value)]
-    V = None
-    if solve:
-        names = [t.id for t in solve[0].targets if isinstance(t, ast.Name)]
-        V = names[-1] if names else None
-    hi = [s for s in body if V and isinstance(s, ast.Assign) and isinstance(s.targets[0], ast.Subscript) and src(s.targets[0].value) == V
-          and isinstance(s.value, ast.Subscript)]
-    lo = []
-    for s_ in body:
-        if V and isinstance(s_, ast.Assign) and isinstance(s_.targets[0], ast.Subscript) and src(s_.targets[0].value) == V \
-                and isinstance(s_.value, ast.Constant) and s_.value.value == 0:
-            sl = s_.targets[0].slice
-            if isinstance(sl, ast.Compare) and src(sl.left) == V and isinstance(sl.ops[0], ast.Lt) and isinstance(sl.comparators[0], ast.Constant) \
-                    and sl.comparators[0].value == 0:
-                lo.append(s_)
-    okk = bool(solve)
-    if okk and hi:
-        mask = src(hi[0].targets[0].slice)
-        mdef = [s for s in body if isinstance(s, ast.Assign) and src(s.targets[0]) == mask]
-        m = mdef[0].value if mdef else hi[0].targets[0].slice
-        tot = src(hi[0].value.value)
-        good_hi = isinstance(m, ast.Compare) and src(m.left) == V and isinstance(m.ops[0], (ast.Gt, ast.GtE)) and src(m.comparators[0]) == tot \
-            and src(hi[0].value.slice) == mask and body.index(hi[0]) > body.index(solve[0])
-        # tot is the total of this path
-        tdefs = [src(s.value) for s in ast.walk(branch) if isinstance(s, ast.Assign) and src(s.targets[0]) == tot]
-        good_hi = good_hi and tdefs and all(t in ('self._mol_vle', 'self._mol_vle + self._dmol_vle') for t in tdefs)
+    # every path that returns the fixed-point solution clips it from above (to the total of that path) and from below (to 0) first
+    ps, trunc = run_paths(f.node, max_paths=4000, follow_except=True)
+    if trunc:
+        raise AnalysisError('VLE._solve_v: path enumeration truncated')
+    n_fp = 0
+    res = {'no-upper-clip': None, 'no-lower-clip': None, 'early-return': None}
+    first_ok = {}
+
+    class _R(ast.NodeTransformer):
+        def __init__(self, defs, skip):
+            self.defs, self.skip = defs, skip
+
+        def visit_Name(self, node):
+            d = self.defs.get(node.id)
+            if d is not None and node.id not in self.skip and isinstance(node.ctx, ast.Load):
+                return _R(self.defs, self.skip | {node.id}).visit(_clone(d))
+            return node
+
+    def _clone(e):
+        return ast.parse(ast.unparse(e), mode='eval').body
+
+    def rs(e, defs, keep):
+        return src(_R(defs, set(keep)).visit(_clone(e)))
+
+    TOTALS = ('self._mol_vle', 'self._mol_vle + self._dmol_vle')
+
+    def total_ok(e, defs, depth=0):
+        if isinstance(e, ast.IfExp):
+            return total_ok(e.body, defs, depth) and total_ok(e.orelse, defs, depth)
+        if isinstance(e, ast.Name) and e.id in defs and depth < 4:
+            return total_ok(defs[e.id], defs, depth + 1)
+        return src(e) in TOTALS
+
+    for p in ps:
+        if p.raised:
+            continue
+        calls = [e for e in p.events if e.kind == 'call' and e.target == 'self._solve_v_fixed_point']
+        if not calls:
+            continue
+        n_fp += 1
+        i0 = p.events.index(calls[-1])
+        V = None
+        defs = {}
+        hi = lo = None
+        for e in p.events:
+            if e.kind == 'assign' and isinstance(e.stmt, ast.Assign):
+                if e.stmt is calls[-1].stmt:
+                    V = e.target
+                else:
+                    defs[e.target] = e.stmt.value
+            if V is None or p.events.index(e) <= i0 or e.kind != 'store' or not isinstance(e.node, ast.Subscript) \
+                    or not isinstance(e.stmt, ast.Assign) or src(e.node.value) != V:
+                continue
+            sl = rs(e.node.slice, defs, {V})
+            val = e.stmt.value
+            if isinstance(val, ast.Subscript) and isinstance(val.value, ast.Name):
+                tot = val.value
+                tfe = _R(defs, {V}).visit(_clone(tot))
+                want = [src(ast.Compare(left=ast.Name(id=V, ctx=ast.Load()), ops=[op()], comparators=[tfe])) for op in (ast.Gt, ast.GtE)]
+                if sl in want and rs(val.slice, defs, {V}) == sl and total_ok(tot, defs):
+                    hi = e
+            if isinstance(val, ast.Constant) and val.value == 0 and sl in ('%s < 0.0' % V, '%s < 0' % V):
+                lo = e
+        ret = [e for e in p.events if e.kind == 'ret']
+        if not ret or ret[-1].node is None or src(ret[-1].node) != V:
+            res['early-return'] = res['early-return'] or (calls[-1].stmt, 'the fixed-point solution is not what this path returns')
+        if hi is None:
+            res['no-upper-clip'] = res['no-upper-clip'] or (calls[-1].stmt, None)
+        else:
+            first_ok.setdefault('hi', hi.stmt)
+        if lo is None:
+            res['no-lower-clip'] = res['no-lower-clip'] or (calls[-1].stmt, None)
+        else:
+            first_ok.setdefault('lo', lo.stmt)
+    if not n_fp:
+        raise AnalysisError('VLE._solve_v: no path through the fixed-point solver')
+    if res['no-upper-clip'] is None:
+        d2.ok('VLE._solve_v', 'fixed-point result clipped from above on all %d paths: v[v > total] = total[v > total]' % n_fp, f, first_ok.get('hi'))
     else:
-        good_hi = False
-    if good_hi:
-        d2.ok('VLE._solve_v', 'fixed-point result clipped from above: v[v > total] = total', f, hi[0])
+        d2.fail('VLE._solve_v', 'no-upper-clip', 'the fixed-point vapour amounts are not clipped to the available total before being returned', f, res['no-upper-clip'][0])
+    if res['no-lower-clip'] is None:
+        d2.ok('VLE._solve_v', 'fixed-point result clipped from below on all %d paths: v[v < 0] = 0' % n_fp, f, first_ok.get('lo'))
     else:
-        d2.fail('VLE._solve_v', 'no-upper-clip', 'the fixed-point vapour amounts are not clipped to the available total before being returned', f, branch)
-    if lo and solve and body.index(lo[0]) > body.index(solve[0]):
-        d2.ok('VLE._solve_v', 'fixed-point result clipped from below: v[v < 0] = 0', f, lo[0])
-    else:
-        d2.fail('VLE._solve_v', 'no-lower-clip', 'negative fixed-point vapour amounts are not zeroed before being returned', f, branch)
-    # no return inside the branch before the clips
-    early = [s for s in ast.walk(branch) if isinstance(s, ast.Return)]
-    if early:
-        d2.fail('VLE._solve_v', 'early-return', 'a return inside the fixed-point branch bypasses the clips', f, early[0])
+        d2.fail('VLE._solve_v', 'no-lower-clip', 'negative fixed-point vapour amounts are not zeroed before being returned', f, res['no-lower-clip'][0])
+    if res['early-return'] is not None:
+        d2.fail('VLE._solve_v', 'early-return', 'a return inside the fixed-point branch bypasses the clips', f, res['early-return'][0])
     # H/S correction: transfers only with f in (0, 1]
     for name in ('set_PH', 'set_PS'):
         g = vle.methods[name]
